@@ -19,6 +19,7 @@ struct File {
     // SOCK
     int peer = -1; std::deque<unsigned char> rx;   // bytes waiting to be read on this end
     bool shut_rd = false, shut_wr = false, closed = false;
+    int err = 0;                       // pending socket error (ECONNRESET: the peer closed with unread data), reported once
     // EPOLL
     Interest in[MAXFD];
     // EVENTFD
